@@ -136,6 +136,8 @@ Inductive command :=
 | CExpunge
 | CCopy (ps : list nat) (dst : N)
 | CMove (ps : list nat) (dst : N)
+| CMoveLabel (ps : list nat) (dst : N)   (* MOVE with a connector of label semantics (MoveMessages answers false): the
+                                            messages are added to dst and STAY in the selected mailbox; nothing is expunged *)
 | CFetchBody (ps : list nat)       (* BODY[] : sets \Seen *)
 | CFetchFlagsBody (ps : list nat)  (* (FLAGS BODY[]) : as above, and every message reports its (new) flags *)
 | CFetchBodyRO (ps : list nat) (with_flags : bool)
@@ -155,6 +157,7 @@ Inductive command :=
 
 Inductive conn_update :=
 | XNew (mb : N) (f : flagset)
+| XNewBulk (mb : N) (n : nat)   (* ONE MessagesCreated with n (flagless) messages: one exists update with n items *)
 | XFlag (m : msgid) (flag : N) (add : bool)
 | XDelete (m : msgid)
 | XSetMailboxes (m : msgid) (mbs : list N).
@@ -163,10 +166,20 @@ Inductive op := Cmd (s : nat) (c : command) | Deliver (s : nat) | Conn (u : conn
 
 Inductive outcome := OOk | OOkIssued (* OK [EXPUNGEISSUED] *) | ONo | OBadState | OFail.
 
-Definition msgs_at (sn : snap) (ps : list nat) : option (list smsg) :=
+(* a message set is a SET: the server resolves it against the snapshot in ascending order whatever order (and however
+   often) the client wrote the numbers *)
+Fixpoint ins_pos (p : nat) (l : list nat) : list nat :=
+  match l with
+  | [] => [p]
+  | q :: t => if Nat.ltb p q then p :: l else if Nat.eqb p q then l else q :: ins_pos p t
+  end.
+Definition norm_ps (ps : list nat) : list nat := fold_right ins_pos [] ps.
+
+Definition msgs_at_raw (sn : snap) (ps : list nat) : option (list smsg) :=
   fold_right (fun p acc => match acc, nth_error sn (p - 1) with
                            | Some l, Some x => if Nat.eqb p 0 then None else Some (x :: l)
                            | _, _ => None end) (Some []) ps.
+Definition msgs_at (sn : snap) (ps : list nat) : option (list smsg) := msgs_at_raw sn (norm_ps ps).
 
 (* session flush performed by a handler, with merge; FPanic/FErr are reported as OFail *)
 Definition sess_flush (permit : bool) (s : sess) : option (sess * list resp) :=
@@ -364,6 +377,18 @@ Definition do_cmd (w : world) (i : nat) (c : command) : world * list resp * outc
                     let '(w3, items) := add_rows w2 dst ms in
                     ret (finish w3 i (ups1 ++ [UExists dst items (Some i)] ++ map (UExpunge sel) ms) false (sel_permits "Move"))
               end
+          | CMoveLabel ps dst =>
+              match msgs_at sn ps with
+              | None => (w, [], ONo)
+              | Some xs =>
+                  let ms := filter (fun m => row_has m (mbox_of w sel)) (map sm_id xs) in
+                  if sel =? dst then (w, [], OFail)   (* not exercised: the same-mailbox path does not ask the connector *)
+                  else
+                    let have := filter (fun m => row_has m (mbox_of w dst)) ms in
+                    let '(w1, ups1) := remove_rows w dst have in
+                    let '(w3, items) := add_rows w1 dst ms in
+                    ret (finish w3 i (ups1 ++ [UExists dst items (Some i)]) false (sel_permits "Move"))
+              end
           | CFetchBody ps | CFetchFlagsBody ps =>
               match msgs_at sn ps with
               | None => (w, [], ONo)
@@ -480,6 +505,11 @@ Definition do_conn (w : world) (x : conn_update) : world :=
       let m := w_nextid w in
       let w1 := mkW (w_flags w ++ [(m, fl_rem f [fl_deleted])]) (w_mbox w) (w_next w) (m + 1) (w_sess w) in
       let '(w2, items) := add_rows w1 mb [m] in
+      queue_all [UExists mb items None] w2
+  | XNewBulk mb n =>
+      let ids := map (fun k => w_nextid w + N.of_nat k) (seq 0 n) in
+      let w1 := mkW (w_flags w ++ map (fun m => (m, [])) ids) (w_mbox w) (w_next w) (w_nextid w + N.of_nat n) (w_sess w) in
+      let '(w2, items) := add_rows w1 mb ids in
       queue_all [UExists mb items None] w2
   | XFlag m flag add =>
       if Bool.eqb (fl_mem flag (flags_of (w_flags w) m)) add then w
